@@ -40,6 +40,15 @@ RV_FAULTS = [LONG + ': .string "abc # never closed', " " * 60 + 'm: .string "a\\
              "w: .word 0x" + "f" * 3600, "lw x1, v[0x" + "1" * 3600 + "]", "la x4, v[0b" + "1" * 14500 + "]"]
 
 
+def is_parser_exception(e):
+    """any subclass of the package's ParserException counts (a NEW subclass is a legitimate parser error, too)"""
+    try:
+        from architecture_simulator.isa.parser_exceptions import ParserException
+        return isinstance(e, ParserException)
+    except Exception:
+        return False
+
+
 def check_load_outcome(load, text):
     """returns (finding or None, class)"""
     try:
@@ -47,7 +56,7 @@ def check_load_outcome(load, text):
         return None, "ok"
     except Exception as e:
         n = type(e).__name__
-        if n in ALLOWED:
+        if n in ALLOWED or is_parser_exception(e):
             nlines = len(text.splitlines())
             ln = getattr(e, "line_number", None)
             if not isinstance(ln, int) or not (1 <= ln <= nlines):
